@@ -3,6 +3,8 @@
 package main
 
 import (
+	"context"
+	stdsql "database/sql"
 	"fmt"
 	"io"
 	"net/http"
@@ -23,6 +25,7 @@ import (
 	httpserver "github.com/bitcoin-sv/block-headers-service/transports/http/server"
 	"github.com/gin-gonic/gin"
 	"github.com/jmoiron/sqlx"
+	sqlite3 "github.com/mattn/go-sqlite3"
 	"github.com/rs/zerolog"
 )
 
@@ -236,4 +239,37 @@ func fnv64(s string) uint64 {
 		h *= 1099511628211
 	}
 	return h
+}
+
+// HookCommits registers cb as SQLite commit hook on n pooled connections (and caps the pool at n, so that every
+// connection the service can get is hooked).  A non-zero return of cb turns that COMMIT into a ROLLBACK: this is
+// how the harness "kills the process" at a transaction boundary below the repository layer.
+func (s *Stack) HookCommits(n int, cb func() int) error {
+	s.DB.SetMaxOpenConns(n)
+	s.DB.SetMaxIdleConns(n)
+	ctx := context.Background()
+	var conns []*stdsql.Conn
+	defer func() {
+		for _, c := range conns {
+			_ = c.Close()
+		}
+	}()
+	for i := 0; i < n; i++ {
+		c, err := s.DB.Conn(ctx)
+		if err != nil {
+			return err
+		}
+		conns = append(conns, c)
+		if err := c.Raw(func(dc interface{}) error {
+			sc, ok := dc.(*sqlite3.SQLiteConn)
+			if !ok {
+				return fmt.Errorf("not a sqlite connection: %T", dc)
+			}
+			sc.RegisterCommitHook(cb)
+			return nil
+		}); err != nil {
+			return err
+		}
+	}
+	return nil
 }
